@@ -181,7 +181,7 @@ class ClientVisitor:
 
             writer.write_line(f"def {module_name}(self) -> {class_name}:")
             writer.indent()
-            writer.write_line(f'"""Client for \'{tag}\' endpoints."""')
+            writer.write_line(f'"""Client for \'{escape_docstring_text(tag)}\' endpoints."""')
             writer.write_line(f"if self._{module_name} is None:")
             writer.indent()
             writer.write_line(f"self._{module_name} = {class_name}(self.transport, self._base_url)")
